@@ -280,6 +280,16 @@ pub fn main(a: &Args) {
     let mut i = 0;
     while i < n && rep.elapsed() < a.max_s {
         i += 1;
+        if i % 5 == 0 {
+            // choice names that need numbering (the same symbol plainly and through the sugar in several alternatives)
+            let text = crate::c17::choice_name_stress(&mut rng);
+            rep.count("choice_name_stress_grammars", 1);
+            for _ in 0..per {
+                let hs = rng.next();
+                judge(&text, hs, &wd, &mut rep, None);
+            }
+            continue;
+        }
         let mut g = gen_ast(&mut rng);
         if rng.chance(0.3) {
             // lower-case names: the type and the action function of a terminal then share one identifier
